@@ -70,6 +70,12 @@ def presentations(spec, case):
                 if i == 1 or case.get('rev_sheets'):
                     so = {str(b): list(range(len(bk['sheets'])))[::-1] for b, bk in enumerate(spec['books'])}
                 out.append(('file:%s' % ''.join(map(str, bo)), run_files(spec, os.path.join(d, 'o%d' % i), bo, so)))
+            if nb > 1:
+                # only one book is given to loads(); the others are reached by following its references in finish()
+                for first in range(nb):
+                    paths = G.write_files(spec, os.path.join(d, 'l%d' % first))
+                    m = sut.ExcelModel().loads(paths[first]).finish()
+                    out.append(('links:%d' % first, G.flatten(m.calculate())))
     return out
 
 
@@ -84,8 +90,23 @@ def check_spec(case):
         path = name.split(':')[0]
         for c in conflicts:
             fails.append(('consistency|%s|%s' % (path, c[0]), '%s: %s %s' % (name, c[1], c[2])))
-        fails += [(s, '[%s] %s' % (name, d)) for s, d in G.compare(spec, flat, expected, sub='wiring-' + path)]
-        if name != base_name:
+        exp_here = expected
+        if path == 'links':
+            # cells of the books that were not loaded explicitly are present only if something refers to them
+            # (names of a linked book are registered wholesale and show blanks for cells nobody needs: not asserted);
+            # asserted: every cell of the loaded book and every cell its formulas transitively refer to
+            first = int(name.split(':')[1])
+            deps = W.depends_on(spec)
+            need = {k for k in expected if k[0] == first}
+            stack = list(need)
+            while stack:
+                for dk in deps.get(stack.pop(), ()):
+                    if dk not in need:
+                        need.add(dk)
+                        stack.append(dk)
+            exp_here = {k: v for k, v in expected.items() if k in need}
+        fails += [(s, '[%s] %s' % (name, d)) for s, d in G.compare(spec, flat, exp_here, sub='wiring-' + path)]
+        if name != base_name and path != 'links':
             for k in pop:
                 kk = (G.sheet_id(spec, k[0], k[1]), k[2], k[3])
                 a, b = base_flat.get(kk, sut.BLANK), flat.get(kk, sut.BLANK)
